@@ -3,9 +3,10 @@
 (* The complete step function: the union of the call alphabets of the      *)
 (* modules of the specification.                                           *)
 (***************************************************************************)
-EXTENDS Bitstring
+EXTENDS Codec
 
 Step(objs, opts, call) ==
   IF call.op \in CoreOps THEN CoreStep(objs, opts, call)
+  ELSE IF call.op \in CodecOps THEN CodecStep(objs, opts, call)
   ELSE Unconstrained
 =============================================================================
